@@ -28,8 +28,6 @@ Fixpoint parse_specs (fuel : nat) (s : str) : list cspec :=
           end
       end
   end.
-Fixpoint position (c : N) (s : str) : option nat :=
-  match s with [] => None | x :: r => if x =? c then Some 0%nat else option_map S (position c r) end.
 
 Definition is_sep (c : N) : bool := c =? 47.
 Fixpoint count_stars (s : str) : nat :=
